@@ -396,6 +396,8 @@ func outsideInt(a interface{}) int {
 		return outsideInt(float64(x))
 	case float64:
 		switch {
+		case x != x:
+			panic("invalid operation: NaN as a bound of a range")
 		case x >= limit:
 			return 1
 		case x < -limit:
